@@ -238,6 +238,24 @@ MuNuHolds(r) == ~r.nan /\ r.disc <= PosTolNdeg(r.polar)
 CallerFns == {"radec_to_munu", "munu_to_radec", "gcirc", "angles_to_x", "x_to_angles"}
 TransformFns == {"radec_to_munu", "munu_to_radec"}
 CallerObjectUnchanged(r) == r.fn \in CallerFns /\ r.same
+(* --- ArrayEqualsScalars: record "shape" = one call of fn on coordinate arrays of shape    *)
+(* `shape` (for gcirc the broadcast shape of its four arguments; bcast = they differed in    *)
+(* shape; for angles_to_x / x_to_angles the (n, 2) / (n, 3) array their interface admits).   *)
+(* The functions act on every sky position separately, so the array result is the array of   *)
+(* the results of the same positions handed over one at a time, in the same shape:            *)
+(* raised = the call raised; shapeok = the result has the shape of the argument(s);           *)
+(* disc = largest element discrepancy from the per-element scalar calls (nano-degrees;        *)
+(* ppb for gcirc).  The shape class is decided here.                                           *)
+ShapeClass(sh) ==
+  IF Len(sh) = 1 THEN "1d"
+  ELSE IF \E j \in 1..Len(sh) : sh[j] = 1 THEN "unit-dim"
+  ELSE IF Len(sh) >= 3 THEN "3d"
+  ELSE IF sh[1] = 3 THEN "lead3"
+  ELSE "2d"
+ShapeClassesOf(fn) == IF fn \in {"angles_to_x", "x_to_angles"} THEN {"unit-dim", "lead3", "2d"}
+                      ELSE {"1d", "unit-dim", "lead3", "2d", "3d"}
+ShapeTol(r) == IF r.fn = "gcirc" THEN 1 ELSE PosTolNdeg(r.polar)
+ArrayEqualsScalars(r) == r.fn \in CallerFns /\ ~r.raised /\ r.shapeok /\ ~r.nan /\ r.disc <= ShapeTol(r)
 (* stripe record: values returned by stripe_to_eta / stripe_to_incl / frame.incl *)
 StripeHolds(r) == /\ r.exact /\ r.stripe \in Stripes
                   /\ r.eta10 = Eta10(r.stripe) /\ r.incl10 = Incl10(r.stripe) /\ r.frameincl10 = Incl10(r.stripe)
